@@ -11,7 +11,7 @@ use vmodel::wire::{hex_short, Enc};
 pub const DEF: PropDef = PropDef {
     id: "C11",
     title: "Unknown enumerated code points are accepted and preserved, not rejected",
-    rule: "complete enumeration per field: for each of 44 (field, enclosing structure) pairs every value of the field's domain (256 or 65536; alert level x description and \
+    rule: "complete enumeration per field: for each of 45 (field, enclosing structure) pairs every value of the field's domain (256 or 65536; alert level x description and \
            hash x signature as 65536 pairs) is written into an otherwise well-formed structure built by the model encoders, parsed, and read back from the parsed value. \
            Surrounding values come from k seeded template variants (quick k = 2, thorough k = 25). Non-trivial = a value that has no named constant in the harness's IANA tables; \
            distinct by (field, value).",
@@ -341,6 +341,29 @@ fn specs() -> Vec<Spec> {
                 return Err(format!("four alerts written, read back {:?}", got));
             }
             Ok(v)
+        } },
+        Spec { name: "heartbeat message type (message reassembled by TlsRecordsParser, last record of 1-2 bytes)", bits: 8, registry: Some(&ia::HEARTBEAT_TYPE), probe: |v, t| {
+            let payload = t.small_blob(12);
+            let mut e = Enc::new();
+            e.u8(v as u8);
+            e.vec(2, "l", &payload);
+            let m = e.buf;
+            // the cut leaves 1 or 2 bytes for the last record (or, when the payload is empty, cuts inside the 3-byte header)
+            let cut = m.len() - 1 - (t.u8() as usize % 2).min(m.len() - 2);
+            let mut p = TlsRecordsParser::default();
+            let mk = |d: &'_ [u8]| -> Vec<u8> { d.to_vec() };
+            let (a, b) = (mk(&m[..cut]), mk(&m[cut..]));
+            let r1 = p.parse_record(TlsRawRecord { hdr: TlsRecordHeader { record_type: TlsRecordType::Heartbeat, version: TlsVersion(0x0303), len: a.len() as u16 }, data: &a });
+            if !matches!(r1, Err(tls_parser::nom::Err::Incomplete(_))) {
+                return Err(format!("first fragment ({} of {} bytes) answered {:?}", a.len(), m.len(), r1.map(|x| x.1.len()).map_err(|e| e.map(|x| x.code))));
+            }
+            match p.parse_record(TlsRawRecord { hdr: TlsRecordHeader { record_type: TlsRecordType::Heartbeat, version: TlsVersion(0x0303), len: b.len() as u16 }, data: &b }) {
+                Ok((_, msgs)) => match msgs.first() {
+                    Some(TlsMessage::Heartbeat(h)) if h.payload == payload.as_slice() => Ok(h.heartbeat_type.0 as u32),
+                    o => Err(format!("reassembled to {:?}", o)),
+                },
+                Err(e) => Err(format!("last fragment ({} bytes) answered {:?}", b.len(), e.map(|x| x.code))),
+            }
         } },
         Spec { name: "record version (later fragment handed to TlsRecordsParser)", bits: 16, registry: Some(&ia::VERSION), probe: |v, t| {
             // a handshake message split over three records: the first carries version a, the others the version under test and a third one;
